@@ -9,6 +9,7 @@ import JT.Model.Layout
 import JT.Model.Codec
 import JT.Model.Act
 import JT.Model.Registry
+import JT.Model.Attach
 /-!
 Line-protocol driver: one operation per input line, one result line per operation.
 `<idx> <op> <args…>` ↦ `<idx> <result>`.
@@ -327,6 +328,47 @@ def run (script : String) : String :=
   " ".intercalate out ++ " ev=ok"
 end RegSim
 
+/-! C15: an upload scenario over `JT.Attach.runS` -/
+namespace AttSim
+open JT JT.Attach
+
+def parseFiles (s : String) : Option (List Bytes) :=
+  (s.splitOn ";").mapM (fun p => match p.splitOn ":" with | [_, c] => ofHex c | _ => none)
+
+def parseEv (files : Array Bytes) (tok : String) : Option Ev :=
+  if tok == "A" then some .announce
+  else if tok.startsWith "B" then ((tok.drop 1).toString.toNat?).map .info
+  else if tok.startsWith "E" then ((tok.drop 1).toString.toNat?).map .done
+  else if tok.startsWith "K" then
+    match ((tok.drop 1).toString.splitOn ":").map String.toNat? with
+    | [some i, some off, some ln] =>
+      match files[i]? with
+      | some c => some (.chunk i off ((c.drop off).take ln))
+      | none => none
+    | _ => none
+  else none
+
+def showReply : Reply → String
+  | .ack => "8001"
+  | .report [] => "9212/0"
+  | .report l => "9212/1/" ++ "+".intercalate (l.map (fun g => s!"{g.off}:{g.len}"))
+
+def run (files events : String) : String :=
+  match parseFiles files with
+  | none => "bad-op"
+  | some fs =>
+    match (events.splitOn ",").mapM (parseEv fs.toArray) with
+    | none => "bad-op"
+    | some evs =>
+      let (st, rs) := runS (fs.map List.length) [] evs
+      let fstr := (List.range fs.length).map (fun i =>
+        match st[i]?, fs[i]? with
+        | some r, some c =>
+          if complete r then (if body r == c then s!"{i}:complete:ok" else s!"{i}:complete:bad") else s!"{i}:incomplete:-"
+        | _, _ => s!"{i}:unknown:-")
+      s!"replies=[{",".intercalate (rs.map showReply)}] files=[{",".intercalate fstr}]"
+end AttSim
+
 def runOp (op : String) (args : List String) : String :=
   match op, args with
   | "dec", [f] =>
@@ -363,6 +405,7 @@ def runOp (op : String) (args : List String) : String :=
     match ofHex body with
     | none => "bad-op"
     | some b => (totModel ty b).getD "skip"
+  | "att", [_astype, _cut, files, events, _alarm] => AttSim.run files events
   | "reg", [script] => RegSim.run script
   | "act", [script] => ActSim.run script
   | "actstress", [_] => "skip"
